@@ -21,8 +21,8 @@ RULE = (
 )
 BOUNDS = {"rows": "12-400", "features": "1-3"}
 ASSUMPTIONS = ["pairs of labels whose mean targets tie exactly in either sample are not judged for rank agreement"]
-BUDGET = {"quick": 1200, "thorough": 15000}
-DEADLINE_S = {"quick": 200, "thorough": 2400}
+BUDGET = {"quick": 1200, "thorough": 60000}
+DEADLINE_S = {"quick": 200, "thorough": 3300}
 
 
 def strategy(tier):
